@@ -341,6 +341,31 @@ class KindAnalysis:
         state[t] = ks
         self._text_vars[t] = self.fn.refs_in(node)
 
+    def track_flag(self, state, vid, rhs):
+        """`int ok = <test>;  ... if (!ok) return ...;`: a non-sexp local assigned from an expression that
+        contains a recognised test stands for that test until it or a variable of the test is redefined
+        (kill_var) or a field the test reads is stored to"""
+        fn = self.fn
+        rhs = fn.strip(rhs)
+        if not self._has_test(rhs):
+            return
+        key = "?" + fn.vars[vid]["n"]
+        if vid in fn.refs_in(rhs):
+            return
+        state[key] = frozenset([("c", rhs)])
+        self._text_vars[key] = {vid} | set(fn.refs_in(rhs))
+
+    def _has_test(self, n, depth=0):
+        fn = self.fn
+        n = fn.strip(n)
+        if classify_test(fn, n):
+            return True
+        nd = fn.nodes[n]
+        if depth < 8 and ((nd["k"] == "bin" and nd["o"] in ("&&", "||", "==", "!=")) or (nd["k"] == "un" and nd["o"] == "!")
+                          or nd["k"] == "cond"):
+            return any(self._has_test(c, depth + 1) for c in nd.get("c", ()))
+        return False
+
     def flow_block(self, bid, state):
         fn, m = self.fn, self.m
         b = fn.blocks[bid]
@@ -360,6 +385,8 @@ class KindAnalysis:
             elif k == "decl" and "d" in nd:
                 vid = nd["d"]
                 self.kill_var(state, vid)
+                if nd.get("c") and fn.var_type(vid) != tables.SEXP_T:
+                    self.track_flag(state, vid, nd["c"][0])
                 if nd.get("c") and fn.var_type(vid) == tables.SEXP_T:
                     ks = self.user_origin(nd["c"][0], state)
                     if ks is not None:
@@ -381,12 +408,18 @@ class KindAnalysis:
                         name = fn.vars[vid]["n"]
                         state[name] = ks
                         self._text_vars[name] = {vid}
+                    if fn.var_type(vid) != tables.SEXP_T:
+                        self.track_flag(state, vid, nd["c"][1])
                 elif ln["k"] == "mem":
                     # a store to a container field invalidates facts about loads of that field
                     f = ln["o"]
                     for t in list(state.keys()):
                         if ("." + f) in t or ("->" + f) in t:
                             del state[t]
+                        elif t.startswith("?"):
+                            ft = " ".join(fn.txt(cn) for (_c, cn) in state[t])
+                            if ("." + f) in ft or ("->" + f) in ft:
+                                del state[t]
             elif k == "bin" and nd["o"].endswith("=") and nd["o"] not in ("==", "!=", "<=", ">="):
                 lhs = fn.strip(nd["c"][0])
                 if fn.nodes[lhs]["k"] == "ref" and "d" in fn.nodes[lhs]:
@@ -448,6 +481,11 @@ class KindAnalysis:
             s2 = self.refine_cond(dict(state), c[0], not pol, depth + 1)
             s2 = self.refine_cond(s2, c[1], pol, depth + 1)
             return self.join_states(s1, s2)
+        if k == "ref" and "d" in nd and fn.type(cond) != tables.SEXP_T:
+            fl = state.get("?" + fn.vars[nd["d"]]["n"])
+            if fl and len(fl) == 1:
+                return self.refine_cond(state, next(iter(fl))[1], pol, depth + 1)
+            return state
         ct = classify_test(fn, cond)
         if ct is None and k == "bin" and nd["o"] in ("!=", "=="):
             for a, b in ((0, 1), (1, 0)):
